@@ -153,6 +153,25 @@ fn observers<const N: usize>(cx: &mut Ctx, entries: &[(u8, u8)], nk: u8) {
         zero!(cx, "Display", write!(sink, "{m}")).ok();
         zero!(cx, "Set Debug", write!(sink, "{s:?}")).ok();
         zero!(cx, "Set Display", write!(sink, "{s}")).ok();
+        // format specifications: width, fill/alignment, precision, sign, zero padding, alternate
+        macro_rules! specs {
+            ($x:expr, $what:expr) => {{
+                zero!(cx, concat!($what, " {:40}"), write!(sink, "{:40}", $x)).ok();
+                zero!(cx, concat!($what, " {:>40}"), write!(sink, "{:>40}", $x)).ok();
+                zero!(cx, concat!($what, " {:*^7}"), write!(sink, "{:*^7}", $x)).ok();
+                zero!(cx, concat!($what, " {:.2}"), write!(sink, "{:.2}", $x)).ok();
+                zero!(cx, concat!($what, " {:+}"), write!(sink, "{:+}", $x)).ok();
+                zero!(cx, concat!($what, " {:#}"), write!(sink, "{:#}", $x)).ok();
+                zero!(cx, concat!($what, " {:012}"), write!(sink, "{:012}", $x)).ok();
+                zero!(cx, concat!($what, " {:1$}"), write!(sink, "{:1$}", $x, 33)).ok();
+                zero!(cx, concat!($what, " {:40?}"), write!(sink, "{:40?}", $x)).ok();
+                zero!(cx, concat!($what, " {:<#12?}"), write!(sink, "{:<#12?}", $x)).ok();
+                zero!(cx, concat!($what, " {:.3?}"), write!(sink, "{:.3?}", $x)).ok();
+                sink.len = 0;
+            }};
+        }
+        specs!(m, "Map");
+        specs!(s, "Set");
         let it = m.iter();
         zero!(cx, "Iter Debug", write!(sink, "{it:?}")).ok();
         let it = m.keys();
